@@ -13,7 +13,7 @@ READY = True
 LEVEL = "exploration"
 WORKERS = {"quick": 8, "thorough": 16}
 BUDGET = {"quick": 60, "thorough": 480}
-MIN_NONTRIVIAL = {"quick": 250, "thorough": 800}
+MIN_NONTRIVIAL = {"quick": 100, "thorough": 600}
 REQUIRED_HOOKS = ["history", "evaluate", "reference(zygote)", "bindings-snapshot", "re-evaluation", "fresh-process-crosscheck"]
 RULE = (
     "Seeded random histories (length 5-60) over {create Environment (runner I/C x declarations none / simple / dotted a.b / package p with p.x), compile, build "
